@@ -458,8 +458,8 @@ def assemble(unit, drop_hints=()):
     open_impl = {m: None for m in mods}
     for x in unit.items:
         out = mod_chunks[x.mod]
-        if x.kind in ("fn", "stub"):
-            if x.qname() in drop_hints:
+        if x.kind in ("fn", "stub") or (x.kind == "raw" and x.impl):
+            if x.kind != "raw" and x.qname() in drop_hints:
                 x = _without_hints(x)
             key = (x.file, x.impl) if x.impl else None
             if open_impl[x.mod] != key:
@@ -481,6 +481,13 @@ def assemble(unit, drop_hints=()):
                         hdr = re.sub(pat, rep, hdr)
                     out.append((hdr + " {\n", dict(kind="gen")))
                 open_impl[x.mod] = key
+            if x.kind == "raw":
+                out.append((x.text, dict(kind="raw", fn=x.name, tag=x.name)))
+                if x.trusted:
+                    asm.trusted.append("unit-local assumed: %s" % x.trusted)
+                elif "external_body" in x.text:
+                    raise LostAnchor("unit %s: raw block %s contains external_body but is not declared trusted" % (unit.name, x.name))
+                continue
             chunks, fpA = process_fn(asm, x, unit)
             out.extend(chunks)
             if not x.stub:
